@@ -182,10 +182,12 @@ TEXT = {
           "full factorization over F_p compared with the model's complete trial-division factorization (monic factors, "
           "multiplicities); full factorization over Z compared with the irreducible blocks the input was built from, each block "
           "re-certified irreducible on every line (irreducible modulo a prime not dividing the leading coefficient, or Kronecker), a "
-          "reducible returned factor is reported with the block that divides it. The criterion 'primitive, leading coefficient not "
-          "divisible by p, irreducible mod p => irreducible over Z' is proved (C05_irreducible_of_mod_p; also degree one: "
-          "C05_irreducible_of_degree_one). Not formalised: the model's decision that the reduction mod p is irreducible (exhaustive "
-          "trial division, executed), Kronecker's search and the use of unique factorization.",
+          "reducible returned factor is reported with the block that divides it. The verdict 'irreducible modulo a prime' is proved end to end (C05_certModP_sound): "
+          "the enumeration of monic polynomials over F_p is complete (monics_complete), the division test is the divisibility of "
+          "(Z/p)[X] (divMod_zero_iff), no monic divisor of degree <= deg/2 means irreducible (irreducibleFp_sound), and a primitive "
+          "integer polynomial whose leading coefficient survives and whose reduction is irreducible is irreducible "
+          "(C05_irreducible_of_mod_p; also degree one: C05_irreducible_of_degree_one). Not formalised: Kronecker's search (the other "
+          "verdict) and the use of unique factorization.",
   "design_ref": "5.5",
   "note": "found and fixed: lp_upolynomial_factor over Z with a non-monic primitive part returned reducible factors (former known finding D28, repaired by the monic transformation); two memory leaks in the Z factorization",
   "technique": "Lean 4 proved certificate soundness (product homomorphism, Bezout => squarefree / coprime) + per-output validation of the C results",
